@@ -113,3 +113,149 @@ func TestTranslatorSelfTest(t *testing.T) {
 		t.Errorf("the early return of Leak must end with the read lock held")
 	}
 }
+
+// The locals pass (locals.go): local variables shared by goroutines, local mutexes, levels.
+func TestTranslatorLocalsSelfTest(t *testing.T) {
+	r0, err := analysePackage("testdata/src", "loc", "Service")
+	if err != nil {
+		t.Fatal(err)
+	}
+	r := r0.locals
+	if r == nil {
+		t.Fatal("no locals graph for testdata/src/loc")
+	}
+	if r.Name != "loc_locals" {
+		t.Errorf("name %q", r.Name)
+	}
+	// per entry: the instructions of its nodes (entries are emitted one after another)
+	type ent struct {
+		name   string
+		single bool
+		instrs []string
+		accs   []accInfo
+	}
+	var ents []ent
+	for i, e := range r.Entries {
+		from := r.entryIDs[i]
+		to := len(r.nodes)
+		if i+1 < len(r.entryIDs) {
+			to = r.entryIDs[i+1]
+		}
+		en := ent{name: e, single: r.Single[r.nodes[from].owner]}
+		for _, n := range r.nodes[from:to] {
+			en.instrs = append(en.instrs, n.instr)
+			if n.acc != nil {
+				en.accs = append(en.accs, *n.acc)
+			}
+		}
+		ents = append(ents, en)
+	}
+	find := func(substr string) *ent {
+		for i := range ents {
+			if strings.Contains(ents[i].name, substr) {
+				return &ents[i]
+			}
+		}
+		return nil
+	}
+	count := func(e *ent, prefix string) int {
+		n := 0
+		for _, in := range e.instrs {
+			if strings.HasPrefix(in, prefix) {
+				n++
+			}
+		}
+		return n
+	}
+	// Good: the account goroutine (level 1) writes the map of the invocation (level 0) under the mutex of the invocation
+	g := find("/L1 in Good/v0")
+	if g == nil {
+		t.Fatalf("no account goroutine for Good: %v", r.Entries)
+	}
+	if g.single {
+		t.Errorf("goroutines started in a loop must be multi-instance")
+	}
+	if len(g.accs) != 1 || !g.accs[0].Write || !strings.HasPrefix(g.accs[0].Field, "accounts@") || !strings.HasSuffix(g.accs[0].Field, "/L0 in Good") {
+		t.Errorf("Good: want one write of the invocation's accounts through the bound parameter, got %+v", g.accs)
+	}
+	if count(g, "ILock") != 1 || count(g, "IUnlock") != 1 {
+		t.Errorf("Good: the mutex of the invocation guards the write: %v", g.instrs)
+	}
+	// Bad: the account goroutine is at level 2, the mutex at level 1: no lock operation remains in the copy for level 0
+	bad := find("/L2 in Bad/v0")
+	if bad == nil {
+		t.Fatalf("no account goroutine at level 2 for Bad: %v", r.Entries)
+	}
+	if bad.single || len(bad.accs) != 1 || !bad.accs[0].Write || !strings.HasSuffix(bad.accs[0].Field, "/L0 in Bad") {
+		t.Errorf("Bad: want one write of the invocation's accounts by a multi-instance goroutine, got single=%v %+v", bad.single, bad.accs)
+	}
+	if count(bad, "ILock") != 0 || count(bad, "IUnlock") != 0 {
+		t.Errorf("Bad: a mutex that exists once per wallet goroutine must not count: %v", bad.instrs)
+	}
+	// Once: started once => single; the write of the value parameter n is not an access; total is
+	o := find("in Once/v0")
+	if o == nil || !o.single {
+		t.Fatalf("Once: want a single-instance goroutine: %+v", o)
+	}
+	for _, a := range o.accs {
+		if !strings.HasPrefix(a.Field, "total@") {
+			t.Errorf("Once: unexpected access %+v", a)
+		}
+	}
+	if len(o.accs) != 1 || !o.accs[0].Write {
+		t.Errorf("Once: want exactly the write of total: %+v", o.accs)
+	}
+	// Own: nothing shared
+	if e := find("in Own/"); e != nil {
+		t.Errorf("Own: a goroutine's own variables are not shared: %+v", e)
+	}
+	// Nested: the inner goroutine (level 2) writes res (level 1) under mu (level 1): the copy for level 1 keeps the lock
+	n := find("/L2 in Nested/v1")
+	if n == nil {
+		t.Fatalf("Nested: no copy of the inner goroutine for level 1: %v", r.Entries)
+	}
+	if n.single || count(n, "ILock") != 1 || len(n.accs) != 1 {
+		t.Errorf("Nested: want a multi-instance goroutine writing res under mu: single=%v %v %+v", n.single, n.instrs, n.accs)
+	}
+	if e := find("in Nested/v0"); e != nil {
+		t.Errorf("Nested: nothing of the invocation itself is shared: %+v", e)
+	}
+}
+
+func TestTranslatorLocalsIterations(t *testing.T) {
+	r0, err := analysePackage("testdata/src", "loc", "Service")
+	if err != nil {
+		t.Fatal(err)
+	}
+	r := r0.locals
+	single := map[string]bool{}
+	for i, g := range r.Groups {
+		single[g] = r.Single[i]
+	}
+	writes := map[string][]string{} // entry -> fields written
+	for _, a := range r.Accesses {
+		if a.Write {
+			writes[a.Entry] = append(writes[a.Entry], a.Field)
+		}
+	}
+	var per, shared string
+	for e := range writes {
+		if strings.Contains(e, "in PerIteration/") {
+			per = e
+		}
+		if strings.Contains(e, "in Shared/") {
+			shared = e
+		}
+	}
+	if per == "" || !single[per] || !strings.HasSuffix(per, "/v1") {
+		t.Errorf("PerIteration: the goroutine is the only one of its iteration's variable: entry %q single=%v (%v)", per, single[per], r.Groups)
+	}
+	for _, f := range writes[per] {
+		if strings.HasPrefix(f, "results@") {
+			t.Errorf("PerIteration: an element assignment of a slice is not a write of the slice: %v", writes[per])
+		}
+	}
+	if shared == "" || single[shared] || !strings.HasSuffix(shared, "/v0") {
+		t.Errorf("Shared: every goroutine of the loop writes the one variable: entry %q single=%v (%v)", shared, single[shared], r.Groups)
+	}
+}
